@@ -50,6 +50,35 @@ def main(chk):
         events.append(ev)
         chk.count("runs_" + s["t"])
         chk.count("raised" if ev["exc"] else "returned")
+    # code -> spec, beyond the exhaustive universes: random schemas nested three (quick) or
+    # four (thorough) levels deep, generated with scripted tapes *and* with the real random
+    # module seeded from VERIF_SEED (tape <<>>: no prediction, the property clauses only)
+    import random as _random
+    from . import deep
+    ndeep, ddepth = (400, 3) if quick else (6000, 4)
+    for s, real in deep.schemas(chk.rng, ndeep, ddepth):
+        cache.cache[valgen.key(s)] = (real, None)
+        for tape in (["lo"], ["hi"], ["lo1", "hi"], []):
+            if tape:
+                ev = run_one(cache, s, tape)
+            else:
+                _random.seed(chk.rng.randrange(1 << 30))
+                exc, val = "", None
+                try:
+                    val = __import__("d42").fake(real)
+                except Exception as e:
+                    exc = type(e).__name__
+                ev = {"s": s, "tape": [], "exc": exc, "vok": True, "rep": False, "v": [], "repr": repr(real)[:300]}
+                if not exc:
+                    try:
+                        ev["vok"] = not __import__("d42").validate(real, val).has_errors()
+                    except Exception:
+                        ev["vok"] = False
+                    ev["rep"], ev["v"] = try_abs(am.a_value, val)
+                    ev["vrepr"] = repr(val)[:200]
+            ev["id"] = len(events) + 1
+            events.append(ev)
+            chk.count("deep_runs")
     chk.require(len(events) >= 5000, "fewer than 5000 generator runs (%d)" % len(events))
     for t in ("int", "float", "str", "list", "dict", "any"):
         chk.require(chk.counts.get("runs_" + t, 0) >= 50, "too few runs for " + t)
